@@ -461,6 +461,16 @@ func checkC09(c *hx.Checker) {
 			}
 		}
 	}
+	// float64 slices whose finite entries lie beyond the float32 range (and differ from each other there)
+	for vi, row := range [][]float64{{1e300, 1e299, -1e300}, {1e40, 1e39}, {-1e300, -1e299}, {3.5e38, 3.4e38, 0}, {1e300, 1e300}, {-1e40, 0, 1e-40}} {
+		x := ref.FromF(ref.F64, []int{len(row)}, row...)
+		e4, err4 := ref.Softmax(x, 0, false)
+		jobs = append(jobs, newJob("Softmax", []hx.Attr{hx.AInt("axis", 0)}, []*ref.T{x}, []*ref.T{e4}, err4, hx.DCompute, hx.Tol(1e-9, 1e-300), "op", nil, fmt.Sprintf("float64-beyond-float32 v=%d", vi), "float64-beyond-float32"))
+		e2, err2 := ref.Reduce(x, []int64{0}, true, false, true)
+		jobs = append(jobs, newJob("ReduceMax", []hx.Attr{hx.AInts("axes", 0), hx.AInt("keepdims", 0)}, []*ref.T{x}, []*ref.T{e2}, err2, hx.DCompute, hx.Bits, "op", nil, fmt.Sprintf("float64-beyond-float32 v=%d", vi), "float64-beyond-float32"))
+		e1, err1 := ref.ArgMax(x, 0, false)
+		jobs = append(jobs, newJob("ArgMax", []hx.Attr{hx.AInt("axis", 0), hx.AInt("keepdims", 0)}, []*ref.T{x}, []*ref.T{e1}, err1, hx.DCompute, hx.Bits, "op", nil, fmt.Sprintf("float64-beyond-float32 v=%d", vi), "float64-beyond-float32"))
+	}
 	// ties between -0 and +0 (equal values: the FIRST position wins, the reduced value may be either zero), also below
 	// and above other values
 	for _, dt := range []ref.DT{ref.F32, ref.F64} {
